@@ -71,9 +71,11 @@ impl HttpRig {
     pub fn pump(&mut self, n: usize) {
         self.rt.block_on(async {
             for _ in 0..n {
+                crate::enet::fence();
                 tokio::task::yield_now().await;
             }
         });
+        crate::enet::fence();
     }
 
     /// GET `path`; returns (status, headers, body).  Err = no complete response (caller decides).
@@ -89,6 +91,24 @@ impl HttpRig {
             Via::Mapped(src) => S::T(crate::enet::connect_from(IpAddr::V4(src), SocketAddr::new("127.0.0.1".parse().unwrap(), self.port_any))?),
             Via::Unix => S::U(UnixStream::connect(&self.unix_path).map_err(|e| format!("unix connect: {e}"))?),
         };
+        let reg_fd = match &s {
+            S::T(t) => {
+                t.set_nodelay(true).ok();
+                let fd = std::os::fd::AsRawFd::as_raw_fd(t);
+                crate::enet::register_tcp(fd);
+                Some(fd)
+            }
+            _ => None,
+        };
+        struct Unreg(Option<i32>);
+        impl Drop for Unreg {
+            fn drop(&mut self) {
+                if let Some(fd) = self.0 {
+                    crate::enet::unregister_tcp(fd);
+                }
+            }
+        }
+        let _unreg = Unreg(reg_fd);
         match &mut s {
             S::T(t) => {
                 t.write_all(req.as_bytes()).map_err(|e| e.to_string())?;
@@ -102,7 +122,6 @@ impl HttpRig {
         let mut buf: Vec<u8> = vec![];
         let mut tmp = vec![0u8; 1 << 16];
         let mut eof = false;
-        let t0 = std::time::Instant::now();
         for round in 0..200000 {
             self.pump(3);
             loop {
@@ -127,7 +146,7 @@ impl HttpRig {
             if eof {
                 break;
             }
-            if round > 300 && buf.is_empty() && t0.elapsed() > std::time::Duration::from_millis(30) {
+            if round > 400 && buf.is_empty() {
                 break;
             }
             if complete(&buf) {
